@@ -3,7 +3,9 @@
 package main
 
 import (
+	"fmt"
 	"go/ast"
+	"go/constant"
 	"go/token"
 	"strings"
 )
@@ -33,48 +35,6 @@ func reserveUsesSelector(fd *ast.FuncDecl, sel string) bool {
 	return found
 }
 
-// switchTrueCases returns, for a method of the shape
-// `switch x { case A, B: return true; default: return false }`, the case
-// expressions of the `return true` arm. ok=false if the shape differs.
-func reserveSwitchCasesReturning(fd *ast.FuncDecl, want string) ([]ast.Expr, bool) {
-	if fd == nil || fd.Body == nil {
-		return nil, false
-	}
-	var sw *ast.SwitchStmt
-	for _, st := range fd.Body.List {
-		if s, ok := st.(*ast.SwitchStmt); ok {
-			sw = s
-		}
-	}
-	if sw == nil {
-		return nil, false
-	}
-	var res []ast.Expr
-	sawDefault := false
-	for _, c := range sw.Body.List {
-		cc := c.(*ast.CaseClause)
-		if len(cc.Body) != 1 {
-			return nil, false
-		}
-		ret, ok := cc.Body[0].(*ast.ReturnStmt)
-		if !ok || len(ret.Results) != 1 {
-			return nil, false
-		}
-		val := exprString(ret.Results[0])
-		if cc.List == nil {
-			sawDefault = true
-			if val == want {
-				return nil, false
-			}
-			continue
-		}
-		if val == want {
-			res = append(res, cc.List...)
-		}
-	}
-	return res, sawDefault
-}
-
 func genReserveFacts() {
 	for k, v := range reserveExtern {
 		externConsts[k] = v
@@ -89,19 +49,24 @@ func genReserveFacts() {
 	l.p("/-- order.FeeRateTotalParts (a float64 variable holding an integral value) -/")
 	l.p("def feeRateTotalParts : Nat := %s", intConst(order, "order", "FeeRateTotalParts"))
 
-	// State.Archived: the set of states for which it returns true.
-	cases, ok := reserveSwitchCasesReturning(findFunc(orderFiles, "State.Archived"), "true")
-	if !ok || len(cases) == 0 {
-		fail("order.State.Archived no longer has the shape switch{case …: return true; default: return false}")
-	}
+	// State.Archived: the set of states for which it returns true, obtained by
+	// evaluating the method body (switch, if-chain or boolean expression alike)
+	// for every value of the uint8 receiver.
 	var arch []string
-	for _, c := range cases {
-		id, isID := c.(*ast.Ident)
-		if !isID {
-			fail("State.Archived: case expression %s is not an identifier", exprString(c))
-			continue
+	if fd := findFunc(orderFiles, "State.Archived"); fd == nil || fd.Recv == nil || len(fd.Recv.List[0].Names) != 1 {
+		fail("order.State.Archived not found")
+	} else {
+		ev := &reserveEval{files: orderFiles, own: order, ext: map[string]*constEnv{}}
+		for v := int64(0); v < 256; v++ {
+			res, ok := ev.callBool(fd, []int64{v}, true)
+			if !ok {
+				fail("order.State.Archived: cannot evaluate the body for state %d (%s)", v, ev.why)
+				break
+			}
+			if res {
+				arch = append(arch, fmt.Sprint(v))
+			}
 		}
-		arch = append(arch, intConst(order, "order", id.Name))
 	}
 	l.p("/-- the states `s` with `State.Archived(s) = true` -/")
 	l.p("def archivedStates : List Nat := [%s]", strings.Join(arch, ", "))
@@ -126,7 +91,7 @@ func genReserveFacts() {
 	} else {
 		for _, s := range []string{"input.P2WSHOutputSize", "input.InputSize", "blockchain.WitnessScaleFactor",
 			"poolscript.TaprootMultiSigWitnessSize", "poolscript.MultiSigWitnessSize"} {
-			if !reserveUsesSelector(etf, s) {
+			if !reserveUsesSelectorDeep(orderFiles, etf, s, 2) {
 				fail("order.EstimateTraderFee no longer uses %s", s)
 			}
 		}
@@ -143,69 +108,76 @@ func genReserveFacts() {
 	l.p("def multiSigWitnessSize : Nat := %s", intConst(ps, "poolscript", "MultiSigWitnessSize"))
 	l.p("def taprootMultiSigWitnessSize : Nat := %s", intConst(ps, "poolscript", "TaprootMultiSigWitnessSize"))
 
-	// the account versions that take the taproot witness size: the case
-	// list of the switch in EstimateTraderFee whose arm assigns the
-	// taproot size.
-	acct := newConstEnv(pkgFiles("account"))
+	// the account versions that take the taproot witness size: evaluate the
+	// body of EstimateTraderFee for every value of its account.Version
+	// parameter and see which witness constant is added to the weight
+	// (switch, if/else on a local boolean, helper call – all the same).
+	acctFiles := pkgFiles("account")
+	acct := newConstEnv(acctFiles)
 	var tap []string
 	if etf != nil {
-		var sw *ast.SwitchStmt
-		ast.Inspect(etf, func(n ast.Node) bool {
-			if s, ok := n.(*ast.SwitchStmt); ok {
-				sw = s
+		vparam := ""
+		for _, f := range etf.Type.Params.List {
+			if exprString(f.Type) == "account.Version" && len(f.Names) == 1 {
+				vparam = f.Names[0].Name
 			}
-			return true
-		})
-		if sw == nil || exprString(sw.Tag) != "accountVersion" {
-			fail("EstimateTraderFee: switch accountVersion not found")
+		}
+		if vparam == "" {
+			fail("EstimateTraderFee: no parameter of type account.Version")
 		} else {
-			nDefault := 0
-			for _, c := range sw.Body.List {
-				cc := c.(*ast.CaseClause)
-				body := ""
-				for _, st := range cc.Body {
-					if as, ok := st.(*ast.AssignStmt); ok && as.Tok == token.ADD_ASSIGN && len(as.Rhs) == 1 {
-						body += exprString(as.Lhs[0]) + "+=" + exprString(as.Rhs[0])
-					} else {
-						body += "?"
-					}
-				}
-				switch {
-				case cc.List == nil:
-					nDefault++
-					if body != "weightEstimate+=poolscript.MultiSigWitnessSize" {
-						fail("EstimateTraderFee: default arm is %q", body)
-					}
-				case body == "weightEstimate+=poolscript.TaprootMultiSigWitnessSize":
-					for _, e := range cc.List {
-						se, ok := e.(*ast.SelectorExpr)
-						if !ok || exprString(se.X) != "account" {
-							fail("EstimateTraderFee: case %s is not account.<Version>", exprString(e))
-							continue
+			ev := &reserveEval{files: orderFiles, own: order, ext: map[string]*constEnv{"account": acct}}
+			for v := int64(0); v < 256 && !curFailed; v++ {
+				var added []string
+				ev.why = ""
+				vars := map[string]int64{vparam: v}
+				locals := map[string]ast.Expr{}
+				ok := ev.run(etf.Body.List, vars, locals, func(st ast.Stmt) bool {
+					if as, isAs := st.(*ast.AssignStmt); isAs && len(as.Rhs) == 1 && as.Tok == token.ADD_ASSIGN {
+						rhs := exprString(ev.resolve(as.Rhs[0], vars, locals, 0))
+						if strings.Contains(rhs, "poolscript.TaprootMultiSigWitnessSize") {
+							added = append(added, "tap")
+						} else if strings.Contains(rhs, "poolscript.MultiSigWitnessSize") {
+							added = append(added, "legacy")
 						}
-						tap = append(tap, intConst(acct, "account", se.Sel.Name))
 					}
-				default:
-					fail("EstimateTraderFee: unexpected switch arm %q", body)
+					return false
+				})
+				switch {
+				case !ok:
+					fail("EstimateTraderFee: cannot evaluate the body for account version %d (%s)", v, ev.why)
+				case len(added) != 1:
+					fail("EstimateTraderFee: account version %d adds witness sizes %v (want exactly one)", v, added)
+				case added[0] == "tap":
+					tap = append(tap, fmt.Sprint(v))
 				}
-			}
-			if nDefault != 1 {
-				fail("EstimateTraderFee: switch has no default arm")
 			}
 		}
 	}
-	// account.ValidateVersion: the known account versions (the case list returning nil).
+	// account.ValidateVersion: the known account versions (those for which it returns nil).
 	var known []string
-	if kc, ok := reserveSwitchCasesReturning(findFunc(pkgFiles("account"), "ValidateVersion"), "nil"); !ok || len(kc) == 0 {
-		fail("account.ValidateVersion no longer has the shape switch{case …: return nil; default: return <err>}")
+	if fd := findFunc(acctFiles, "ValidateVersion"); fd == nil || len(fd.Type.Params.List) != 1 ||
+		len(fd.Type.Params.List[0].Names) != 1 {
+		fail("account.ValidateVersion not found")
 	} else {
-		for _, c := range kc {
-			id, isID := c.(*ast.Ident)
-			if !isID {
-				fail("account.ValidateVersion: case %s is not an identifier", exprString(c))
-				continue
+		ev := &reserveEval{files: acctFiles, own: acct, ext: map[string]*constEnv{}}
+		for v := int64(0); v < 256; v++ {
+			var isNil, seen bool
+			ok := ev.run(fd.Body.List, map[string]int64{fd.Type.Params.List[0].Names[0].Name: v}, map[string]ast.Expr{},
+				func(st ast.Stmt) bool {
+					if ret, isRet := st.(*ast.ReturnStmt); isRet && len(ret.Results) == 1 {
+						seen = true
+						isNil = exprString(ret.Results[0]) == "nil"
+						return true
+					}
+					return false
+				})
+			if !ok || !seen {
+				fail("account.ValidateVersion: cannot evaluate the body for version %d (%s)", v, ev.why)
+				break
 			}
-			known = append(known, intConst(acct, "account", id.Name))
+			if isNil {
+				known = append(known, fmt.Sprint(v))
+			}
 		}
 	}
 	l.p("/-- the account versions `account.ValidateVersion` accepts -/")
@@ -213,27 +185,483 @@ func genReserveFacts() {
 	l.p("/-- account versions for which EstimateTraderFee adds the taproot witness size (all others: MultiSigWitnessSize) -/")
 	l.p("def taprootVersions : List Nat := [%s]", strings.Join(tap, ", "))
 
-	// LinearFeeSchedule.ExecutionFee: `amt * s.feeRate / <literal>`.
+	// LinearFeeSchedule.ExecutionFee: the unique integer division in the body whose dividend multiplies the
+	// amount parameter by the fee rate field and whose divisor is an integer constant (operand order, locals and
+	// parentheses do not matter).
 	div := "0"
-	ef := findFunc(pkgFiles("terms"), "LinearFeeSchedule.ExecutionFee")
-	if ef == nil || ef.Body == nil || len(ef.Body.List) != 1 {
-		fail("terms.LinearFeeSchedule.ExecutionFee not found / not a single return")
-	} else if ret, ok := ef.Body.List[0].(*ast.ReturnStmt); !ok || len(ret.Results) != 1 {
-		fail("terms.LinearFeeSchedule.ExecutionFee is not a single return")
-	} else if be, ok := ret.Results[0].(*ast.BinaryExpr); !ok || be.Op != token.QUO ||
-		exprString(be.X) != "amt * s.feeRate" {
-		fail("terms.LinearFeeSchedule.ExecutionFee is no longer amt * s.feeRate / <const>: %s", exprString(ret.Results[0]))
-	} else if lit, ok := be.Y.(*ast.BasicLit); !ok || lit.Kind != token.INT {
-		fail("terms.LinearFeeSchedule.ExecutionFee divisor is not an integer literal")
+	termsFiles := pkgFiles("terms")
+	termsEnv := newConstEnv(termsFiles)
+	if ef := findFunc(termsFiles, "LinearFeeSchedule.ExecutionFee"); ef == nil || ef.Body == nil {
+		fail("terms.LinearFeeSchedule.ExecutionFee not found")
 	} else {
-		div = strings.ReplaceAll(lit.Value, "_", "")
+		amtName := ""
+		if len(ef.Type.Params.List) == 1 && len(ef.Type.Params.List[0].Names) == 1 {
+			amtName = ef.Type.Params.List[0].Names[0].Name
+		}
+		locals := map[string]ast.Expr{}
+		ast.Inspect(ef.Body, func(n ast.Node) bool {
+			if as, ok := n.(*ast.AssignStmt); ok && as.Tok == token.DEFINE && len(as.Lhs) == 1 && len(as.Rhs) == 1 {
+				if id, ok := as.Lhs[0].(*ast.Ident); ok {
+					locals[id.Name] = as.Rhs[0]
+				}
+			}
+			if vs, ok := n.(*ast.ValueSpec); ok && len(vs.Names) == len(vs.Values) {
+				for i, nm := range vs.Names {
+					locals[nm.Name] = vs.Values[i]
+				}
+			}
+			return true
+		})
+		var mentions func(e ast.Expr, depth int) (amt, rate bool)
+		mentions = func(e ast.Expr, depth int) (amt, rate bool) {
+			ast.Inspect(e, func(n ast.Node) bool {
+				switch x := n.(type) {
+				case *ast.Ident:
+					if x.Name == amtName {
+						amt = true
+					} else if def, ok := locals[x.Name]; ok && depth < 4 {
+						a2, r2 := mentions(def, depth+1)
+						amt, rate = amt || a2, rate || r2
+					}
+				case *ast.SelectorExpr:
+					if x.Sel.Name == "feeRate" {
+						rate = true
+					}
+				}
+				return true
+			})
+			return
+		}
+		var found []string
+		ast.Inspect(ef.Body, func(n ast.Node) bool {
+			be, ok := n.(*ast.BinaryExpr)
+			if !ok || be.Op != token.QUO {
+				return true
+			}
+			y := be.Y
+			for i := 0; i < 4; i++ {
+				if id, ok := y.(*ast.Ident); ok {
+					if d, ok := locals[id.Name]; ok {
+						y = d
+						continue
+					}
+				}
+				break
+			}
+			if v, ok := termsEnv.eval(y, 0); ok && v.Kind() == constant.Int {
+				if a, r := mentions(be.X, 0); a && r {
+					found = append(found, v.ExactString())
+				}
+			}
+			return true
+		})
+		if len(found) != 1 {
+			fail("terms.LinearFeeSchedule.ExecutionFee: expected exactly one `amount * feeRate / <const>`, found %v", found)
+		} else {
+			div = found[0]
+		}
 	}
 	l.p("/-- divisor of terms.LinearFeeSchedule.ExecutionFee (fee rate is in parts per …) -/")
 	l.p("def execFeeRateDivisor : Nat := %s", div)
 
 	// manager.validateOrder compares MaxBatchFeeRate with chainfee.FeePerKwFloor.
-	if vo := findFunc(orderFiles, "manager.validateOrder"); vo == nil || !reserveUsesSelector(vo, "chainfee.FeePerKwFloor") {
+	if vo := findFunc(orderFiles, "manager.validateOrder"); vo == nil || !reserveUsesSelectorDeep(orderFiles, vo, "chainfee.FeePerKwFloor", 2) {
 		fail("order.manager.validateOrder no longer references chainfee.FeePerKwFloor")
 	}
 	l.p("end Pool.Gen.Reserve")
+}
+
+
+// reserveUsesSelectorDeep: like reserveUsesSelector, also looking into same-package
+// functions called from the body (an extracted helper yields the same fact).
+func reserveUsesSelectorDeep(files []*ast.File, fd *ast.FuncDecl, sel string, depth int) bool {
+	if fd == nil {
+		return false
+	}
+	if reserveUsesSelector(fd, sel) {
+		return true
+	}
+	if depth == 0 {
+		return false
+	}
+	found := false
+	ast.Inspect(fd, func(n ast.Node) bool {
+		if ce, ok := n.(*ast.CallExpr); ok && !found {
+			if id, ok := ce.Fun.(*ast.Ident); ok {
+				if callee := findFunc(files, id.Name); callee != nil && callee != fd {
+					found = reserveUsesSelectorDeep(files, callee, sel, depth-1)
+				}
+			}
+		}
+		return !found
+	})
+	return found
+}
+
+// reserveEval is a tiny interpreter for decision code over one small integer
+// input: it executes if / else-if chains, tagged and tagless switches, simple
+// local definitions, returns and calls of same-package boolean helpers, with
+// integer comparisons over the input, package constants and literals. It lets
+// the extractor read WHAT a function decides for every input value instead of
+// how the decision is spelled.
+type reserveEval struct {
+	files []*ast.File
+	own   *constEnv
+	ext   map[string]*constEnv
+	why   string
+	depth int
+}
+
+func (e *reserveEval) giveUp(format string, a ...interface{}) bool {
+	if e.why == "" {
+		e.why = fmt.Sprintf(format, a...)
+	}
+	return false
+}
+
+func (e *reserveEval) intVal(x ast.Expr, vars map[string]int64, locals map[string]ast.Expr) (int64, bool) {
+	switch t := x.(type) {
+	case *ast.ParenExpr:
+		return e.intVal(t.X, vars, locals)
+	case *ast.Ident:
+		if v, ok := vars[t.Name]; ok {
+			return v, true
+		}
+		if d, ok := locals[t.Name]; ok {
+			return e.intVal(d, vars, locals)
+		}
+		if v, ok := e.own.get(t.Name); ok && v.Kind() == constant.Int {
+			if i, exact := constant.Int64Val(v); exact {
+				return i, true
+			}
+		}
+	case *ast.SelectorExpr:
+		if pkg, ok := t.X.(*ast.Ident); ok {
+			if env, ok := e.ext[pkg.Name]; ok {
+				if v, ok := env.get(t.Sel.Name); ok && v.Kind() == constant.Int {
+					if i, exact := constant.Int64Val(v); exact {
+						return i, true
+					}
+				}
+			}
+		}
+	case *ast.BasicLit:
+		v := constant.MakeFromLiteral(t.Value, t.Kind, 0)
+		if v.Kind() == constant.Int {
+			if i, exact := constant.Int64Val(v); exact {
+				return i, true
+			}
+		}
+	case *ast.CallExpr: // conversion T(x)
+		if len(t.Args) == 1 {
+			if id, ok := t.Fun.(*ast.Ident); !ok || findFunc(e.files, id.Name) == nil {
+				return e.intVal(t.Args[0], vars, locals)
+			}
+		}
+	}
+	e.giveUp("integer expression %s", exprString(x))
+	return 0, false
+}
+
+func (e *reserveEval) boolVal(x ast.Expr, vars map[string]int64, locals map[string]ast.Expr) (bool, bool) {
+	switch t := x.(type) {
+	case *ast.ParenExpr:
+		return e.boolVal(t.X, vars, locals)
+	case *ast.Ident:
+		switch t.Name {
+		case "true":
+			return true, true
+		case "false":
+			return false, true
+		}
+		if d, ok := locals[t.Name]; ok {
+			return e.boolVal(d, vars, locals)
+		}
+	case *ast.UnaryExpr:
+		if t.Op == token.NOT {
+			v, ok := e.boolVal(t.X, vars, locals)
+			return !v, ok
+		}
+	case *ast.BinaryExpr:
+		switch t.Op {
+		case token.LOR, token.LAND:
+			a, ok1 := e.boolVal(t.X, vars, locals)
+			if !ok1 {
+				return false, false
+			}
+			if (t.Op == token.LOR && a) || (t.Op == token.LAND && !a) {
+				return a, true
+			}
+			return e.boolVal(t.Y, vars, locals)
+		case token.EQL, token.NEQ, token.LSS, token.LEQ, token.GTR, token.GEQ:
+			a, ok1 := e.intVal(t.X, vars, locals)
+			b, ok2 := e.intVal(t.Y, vars, locals)
+			if !ok1 || !ok2 {
+				return false, false
+			}
+			switch t.Op {
+			case token.EQL:
+				return a == b, true
+			case token.NEQ:
+				return a != b, true
+			case token.LSS:
+				return a < b, true
+			case token.LEQ:
+				return a <= b, true
+			case token.GTR:
+				return a > b, true
+			default:
+				return a >= b, true
+			}
+		}
+	case *ast.CallExpr:
+		// same-package boolean helper (function, or method on the input value)
+		var callee *ast.FuncDecl
+		var args []ast.Expr
+		switch f := t.Fun.(type) {
+		case *ast.Ident:
+			callee, args = findFunc(e.files, f.Name), t.Args
+		case *ast.SelectorExpr:
+			for _, file := range e.files {
+				for _, d := range file.Decls {
+					if fd, ok := d.(*ast.FuncDecl); ok && fd.Recv != nil && fd.Name.Name == f.Sel.Name {
+						callee, args = fd, append([]ast.Expr{f.X}, t.Args...)
+					}
+				}
+			}
+		}
+		if callee != nil && e.depth < 3 {
+			vals := make([]int64, len(args))
+			for i, a := range args {
+				v, ok := e.intVal(a, vars, locals)
+				if !ok {
+					return false, false
+				}
+				vals[i] = v
+			}
+			return e.callBool(callee, vals, callee.Recv != nil)
+		}
+	}
+	e.giveUp("boolean expression %s", exprString(x))
+	return false, false
+}
+
+// resolve follows local definitions/assignments, conversions and calls of same-package helpers (executed for the
+// current input) down to the expression that finally provides the value.
+func (e *reserveEval) resolve(x ast.Expr, vars map[string]int64, locals map[string]ast.Expr, depth int) ast.Expr {
+	if depth > 6 {
+		return x
+	}
+	switch t := x.(type) {
+	case *ast.ParenExpr:
+		return e.resolve(t.X, vars, locals, depth+1)
+	case *ast.Ident:
+		if d, ok := locals[t.Name]; ok && d != x {
+			return e.resolve(d, vars, locals, depth+1)
+		}
+	case *ast.CallExpr:
+		if id, ok := t.Fun.(*ast.Ident); ok {
+			if callee := findFunc(e.files, id.Name); callee != nil && callee.Body != nil && e.depth < 3 {
+				var names []string
+				for _, f := range callee.Type.Params.List {
+					for _, n := range f.Names {
+						names = append(names, n.Name)
+					}
+				}
+				if len(names) == len(t.Args) {
+					cv := map[string]int64{}
+					for i, a := range t.Args {
+						if v, ok := e.intVal(a, vars, locals); ok {
+							cv[names[i]] = v
+						}
+					}
+					e.why = ""
+					var ret ast.Expr
+					cl := map[string]ast.Expr{}
+					e.depth++
+					ok := e.run(callee.Body.List, cv, cl, func(st ast.Stmt) bool {
+						if r, isRet := st.(*ast.ReturnStmt); isRet && len(r.Results) == 1 {
+							ret = e.resolve(r.Results[0], cv, cl, depth+1)
+							return true
+						}
+						return false
+					})
+					e.depth--
+					if ok && ret != nil {
+						return ret
+					}
+				}
+			} else if callee == nil && len(t.Args) == 1 { // conversion
+				return e.resolve(t.Args[0], vars, locals, depth+1)
+			}
+		}
+	}
+	return x
+}
+
+// callBool evaluates a function with integer parameters (receiver first if withRecv) returning one bool.
+func (e *reserveEval) callBool(fd *ast.FuncDecl, args []int64, withRecv bool) (bool, bool) {
+	var names []string
+	if withRecv && fd.Recv != nil {
+		for _, f := range fd.Recv.List {
+			for _, n := range f.Names {
+				names = append(names, n.Name)
+			}
+		}
+	}
+	for _, f := range fd.Type.Params.List {
+		for _, n := range f.Names {
+			names = append(names, n.Name)
+		}
+	}
+	if len(names) != len(args) || fd.Body == nil {
+		return false, e.giveUp("call of %s: parameter mismatch", fd.Name.Name)
+	}
+	vars := map[string]int64{}
+	for i, n := range names {
+		vars[n] = args[i]
+	}
+	var res, got, okRes bool
+	e.depth++
+	locals := map[string]ast.Expr{}
+	ok := e.run(fd.Body.List, vars, locals, func(st ast.Stmt) bool {
+		if ret, isRet := st.(*ast.ReturnStmt); isRet && len(ret.Results) == 1 {
+			res, okRes = e.boolVal(ret.Results[0], vars, locals)
+			got = true
+			return true
+		}
+		return false
+	})
+	e.depth--
+	if !ok || !got || !okRes {
+		return false, e.giveUp("call of %s: no boolean result", fd.Name.Name)
+	}
+	return res, true
+}
+
+// run executes the statements for the given input; visit sees every executed
+// simple statement and stops the run by returning true. Result false = the
+// control flow could not be decided.
+func (e *reserveEval) run(stmts []ast.Stmt, vars map[string]int64, locals map[string]ast.Expr,
+	visit func(ast.Stmt) bool) bool {
+
+	stopped := false
+	var exec func(list []ast.Stmt) bool
+	exec = func(list []ast.Stmt) bool {
+		for _, st := range list {
+			if stopped {
+				return true
+			}
+			switch t := st.(type) {
+			case *ast.BlockStmt:
+				if !exec(t.List) {
+					return false
+				}
+			case *ast.AssignStmt:
+				if (t.Tok == token.DEFINE || t.Tok == token.ASSIGN) && len(t.Lhs) == 1 && len(t.Rhs) == 1 {
+					if id, ok := t.Lhs[0].(*ast.Ident); ok {
+						locals[id.Name] = t.Rhs[0]
+					}
+				}
+				if visit(st) {
+					stopped = true
+				}
+			case *ast.DeclStmt:
+				if gd, ok := t.Decl.(*ast.GenDecl); ok && (gd.Tok == token.VAR || gd.Tok == token.CONST) {
+					for _, sp := range gd.Specs {
+						if vs, ok := sp.(*ast.ValueSpec); ok && len(vs.Names) == len(vs.Values) {
+							for i, n := range vs.Names {
+								locals[n.Name] = vs.Values[i]
+							}
+						}
+					}
+				}
+			case *ast.IfStmt:
+				if t.Init != nil && !exec([]ast.Stmt{t.Init}) {
+					return false
+				}
+				c, ok := e.boolVal(t.Cond, vars, locals)
+				if !ok {
+					return false
+				}
+				if c {
+					if !exec(t.Body.List) {
+						return false
+					}
+				} else if t.Else != nil {
+					if !exec([]ast.Stmt{t.Else}) {
+						return false
+					}
+				}
+			case *ast.SwitchStmt:
+				if t.Init != nil && !exec([]ast.Stmt{t.Init}) {
+					return false
+				}
+				var tag int64
+				if t.Tag != nil {
+					v, ok := e.intVal(t.Tag, vars, locals)
+					if !ok {
+						return false
+					}
+					tag = v
+				}
+				var chosen, def *ast.CaseClause
+				for _, c := range t.Body.List {
+					cc := c.(*ast.CaseClause)
+					if cc.List == nil {
+						def = cc
+						continue
+					}
+					for _, ce := range cc.List {
+						hit := false
+						if t.Tag != nil {
+							v, ok := e.intVal(ce, vars, locals)
+							if !ok {
+								return false
+							}
+							hit = v == tag
+						} else {
+							v, ok := e.boolVal(ce, vars, locals)
+							if !ok {
+								return false
+							}
+							hit = v
+						}
+						if hit && chosen == nil {
+							chosen = cc
+						}
+					}
+				}
+				if chosen == nil {
+					chosen = def
+				}
+				if chosen != nil {
+					for _, b := range chosen.Body {
+						if br, ok := b.(*ast.BranchStmt); ok && br.Tok == token.FALLTHROUGH {
+							return e.giveUp("fallthrough")
+						}
+					}
+					if !exec(chosen.Body) {
+						return false
+					}
+				}
+			case *ast.ReturnStmt:
+				visit(st)
+				stopped = true
+			case *ast.ForStmt, *ast.RangeStmt, *ast.GoStmt, *ast.SelectStmt, *ast.TypeSwitchStmt, *ast.LabeledStmt:
+				return e.giveUp("unsupported statement %T", st)
+			case *ast.BranchStmt:
+				if t.Tok != token.BREAK {
+					return e.giveUp("branch statement %s", t.Tok)
+				}
+				return true
+			default:
+				if visit(st) {
+					stopped = true
+				}
+			}
+		}
+		return true
+	}
+	return exec(stmts)
 }
